@@ -857,3 +857,19 @@ class ActionKinds:
             if not changed:
                 return
         raise AnalysisError('semantic-value kind analysis did not converge')
+
+
+_ak_cache = {}
+
+
+def kinds_for(src, dialect):
+    """solved ActionKinds of one dialect, memoised per SourceSet"""
+    from .grammar import load_dialect
+    from .pymodel import model_for
+    key = (id(src), dialect)
+    if key not in _ak_cache or _ak_cache[key][0] is not src:
+        g = load_dialect(src, dialect)
+        ak = ActionKinds(g, model_for(src))
+        ak.solve()
+        _ak_cache[key] = (src, ak)
+    return _ak_cache[key][1]
